@@ -44,7 +44,9 @@ def trash_dir_generators(b):
     for y in b.nodes('yield'):
         v = y.data.get('value')
         for a in flat(v) if v is not None else []:
-            if isinstance(a, TupleT) and len(a.items) == 2 and contains(
+            if isinstance(a, TupleT) and len(a.items) == 2 and \
+                    not any(isinstance(x0, (Obj, ListObj, DictObj)) for x0 in flat(a.items[0])) \
+                    and contains(
                     a.items[0], lambda x: (isinstance(x, Fmt) and 'Trash' in x.template) or
                     (isinstance(x, Const) and isinstance(x.value, str) and
                      'Trash' in x.value)):
@@ -110,8 +112,10 @@ def check(ctx):
                        set(enum_members(ctx, cls)) - set(k.name for k in keys)))
             vals = [strip(v) for v in n.data['values']]
             kinds = set(type(v).__name__ for v in vals)
+            # all instances (used through a method), or all plain callables (functions,
+            # partials, builtins); never a bare class among them
             ctx.ob('R02.1', 'registry values are of one kind (instances)',
-                   kinds <= {'Obj'}, node=n,
+                   kinds <= {'Obj'} or not (kinds & {'Obj', 'ClsRef'}), node=n,
                    message='the registry mixes %s: a bare class object cannot be called like '
                            'its sibling instances (TypeError before anything is listed)'
                            % sorted(kinds))
@@ -171,16 +175,23 @@ def check(ctx):
                message='after the move restore deletes something else than that entry\'s '
                        '.trashinfo')
         mk = [e for e in muts if e.data['kind'] == 'CREATE_DIR']
-        stop = [e.id for e in mk if all(
-            is_call(a, *DIRNAME) and alt_ids(a.args[0]) == alt_ids(loc)
-            for a in flat(e.data['roles']['path']))]
+        def parent_of_loc(t):
+            # dirname(X) on every alternative, the X's together being LOC
+            fl = flat(t)
+            if not fl or not all(is_call(a, *DIRNAME) and
+                                 alt_ids(a.args[0]) <= alt_ids(loc) for a in fl):
+                return False
+            got = set()
+            for a in fl:
+                got |= alt_ids(a.args[0])
+            return got == alt_ids(loc)
+        stop = [e.id for e in mk if parent_of_loc(e.data['roles']['path'])]
         for n in b.nodes('assume'):
             c, pol = unwrap_not(n.data['cond'], n.data['pol'])
             pn = probe_result_of(c)
             if pn is not None and pol and g.n(pn).data['role'] == 'isdir':
                 arg = g.n(pn).data['args'][0]
-                if all(is_call(a, *DIRNAME) and alt_ids(a.args[0]) == alt_ids(loc)
-                       for a in flat(arg)):
+                if parent_of_loc(arg):
                     stop.append(n.id)
         ctx.ob('R02.2', 'the parent of LOC is created (or found) before the MOVE',
                bool(stop) and cut_c(b, g.entry, m.id, stop), node=m,
